@@ -183,6 +183,29 @@ theorem V_end_aux_tie : V_end_aux ⟨b, d :: d1 :: sub⟩ = (b + d.nelems, d1 ::
   simp [V_end_aux]
 end viewD
 
+theorem length_rotate (l : Layout) : (Layout.rotate l).length = l.length := by
+  fun_induction Layout.rotate l with
+  | case1 d0 d1 l ih => simp [ih]
+  | case2 l h => rfl
+
+theorem length_sliced (v : View) (a b : Int) : (v.sliced a b).lay.length = v.lay.length := by
+  unfold View.sliced
+  split <;> simp_all [Layout.slice]
+
+theorem length_paren_rng2 (v : View) (a b a' b' : Int) :
+    (v.paren [Arg.rng a b, Arg.rng a' b']).lay.length = v.lay.length := by
+  simp [View.paren, View.unrotated, View.rotated, View.range, Layout.length_unrotate, length_rotate, length_sliced]
+
+/-- `diagonal_aux_` unconditionally: the call syntax with two ranges preserves the number of levels, so the hypothesis of
+    `V_diagonal_aux_tie` always holds -/
+theorem diagonal_is_the_code (b : Int) (d d1 : Dim) (sub : Layout) :
+    V_diagonal_aux ⟨b, d :: d1 :: sub⟩ = View.diagonal ⟨b, d :: d1 :: sub⟩ := by
+  have hl := length_paren_rng2 ⟨b, d :: d1 :: sub⟩ 0 (min d.size d1.size) 0 (min d.size d1.size)
+  match h : (View.paren ⟨b, d :: d1 :: sub⟩ [Arg.rng 0 (min d.size d1.size), Arg.rng 0 (min d.size d1.size)]).lay with
+  | [] => rw [h] at hl; simp at hl
+  | [_] => rw [h] at hl; simp at hl
+  | e0 :: e1 :: rest => exact V_diagonal_aux_tie b d d1 sub e0 e1 rest h
+
 /-! ### array_ref.hpp, `const_subarray<T, 1>` -/
 
 section view1
